@@ -64,6 +64,10 @@ type sCmd struct {
 	Short int     `json:"short,omitempty"` // the reader ends this many bytes early
 	Ext   string  `json:"ext,omitempty"`   // overwrite: which body
 	K     int     `json:"k,omitempty"`     // overwrite: which block
+	N2    string  `json:"n2,omitempty"`    // received2: the second part of the query
+	V2    int     `json:"v2,omitempty"`
+	Lo2   int     `json:"lo2,omitempty"`
+	Hi2   int     `json:"hi2,omitempty"`
 	Crash *sCrash `json:"crash,omitempty"`
 }
 
@@ -574,6 +578,10 @@ func (r *stageRun) exec(c *sCmd) string {
 			return "yes"
 		}
 		return "no"
+	case "received2":
+		c2 := *c
+		c2.N, c2.V, c2.Lo, c2.Hi, c2.DV = c.N2, c.V2, c.Lo2, c.Hi2, c.V2
+		return fmt.Sprint(r.st.Received([]sts.Binned{r.binned(c), r.binned(&c2)}))
 	case "status":
 		switch r.st.GetFileStatus(c.N, fileTime) {
 		case sts.ConfirmFailed:
